@@ -55,6 +55,9 @@ def check_one(prop: str, tier: str, seed: int, repo: Repo | None = None, quiet=F
         print(f"VIOLATION property={prop} replay={rp}")
         print(f"  {o.loc} {o.rule} {o.construct}: {o.msg}")
         print(f"  key={o.key}")
+    for e in res.errors:
+        # (only together with a violation; otherwise run_property raised and main() exits 2)
+        print(f"ANALYSIS-ERROR: {e}")
     return 1 if res.violations else 0
 
 
